@@ -26,7 +26,7 @@ ASSUMPTIONS = [
 
 
 def gen_cases(rng, tier):
-    fam = U.family()
+    fam = U.family()   # (the initializer probes at the end of every observation depend on the shape only)
     n = 2500 if tier == "quick" else 60000
     cases = []
     for j in range(n):
@@ -91,6 +91,31 @@ def predicate(c, obs):
         i += 1
     if obs[i:i + 2] != [0, 1]:
         return "the test buffer helper does not round-trip the value (TestByteSet::new(v).owned() != v): %s" % obs[i:i + 2]
+    i += 2
+    # initialisers: the announced INIT_BYTES are exactly the bytes `init` writes, nothing outside them is touched, and what
+    # was written deserializes
+    if i < len(obs) and obs[i] == -790:
+        i += 1
+        while i < len(obs):
+            kind, announced, tag = obs[i:i + 3]
+            i += 3
+            if tag == 0:
+                consumed, tail_ok, nb = obs[i:i + 3]
+                i += 3 + nb
+                rep = obs[i]
+                i += 1
+                if consumed != announced:
+                    return "initializer kind %d announces INIT_BYTES = %d but init wrote %d bytes" % (kind, announced, consumed)
+                if not tail_ok:
+                    return "initializer kind %d wrote outside its announced INIT_BYTES" % kind
+                if rep != 0:
+                    return "the bytes written by initializer kind %d do not deserialize" % kind
+            elif tag == 1:
+                i += 1
+            elif tag == 2:
+                return "initializer kind %d panicked" % kind
+            else:
+                return "malformed initializer observation"
     return None
 
 
